@@ -277,6 +277,14 @@ func Main(args []string) int {
 	if len(args) >= 1 && args[0] == "shard" {
 		return shardMain(args[1:])
 	}
+	if len(args) >= 2 && args[0] == "worker" {
+		w := workers[args[1]]
+		if w == nil {
+			fmt.Fprintln(os.Stderr, "unknown worker", args[1])
+			return 2
+		}
+		return w(args[2:])
+	}
 	if len(args) < 1 {
 		fmt.Fprintln(os.Stderr, "usage: vcheck <ID> [quick|thorough] | vcheck replay <file> | vcheck list")
 		return 2
@@ -660,4 +668,25 @@ func writeEvidence(p *Prop, tier string, seed int64, m *ShardResult, wall float6
 	b, _ := json.MarshalIndent(ev, "", " ")
 	_ = os.MkdirAll(filepath.Join(Root(), "evidence"), 0o755)
 	_ = os.WriteFile(filepath.Join(Root(), "evidence", p.ID+".json"), append(b, '\n'), 0o644)
+}
+
+// ---------------------------------------------------------------------------
+// fresh-process workers: hidden package-level state of the library can only be
+// reset by starting a new process, so call sequences "from a fresh process"
+// are executed by re-invoking this binary.
+
+var workers = map[string]func(args []string) int{}
+
+func RegisterWorker(name string, f func(args []string) int) { workers[name] = f }
+
+// RunWorker starts a fresh copy of this binary running the named worker.
+func RunWorker(name string, stdin []byte, args ...string) (stdout []byte, stderr []byte, err error) {
+	exe, _ := os.Executable()
+	cmd := exec.Command(exe, append([]string{"worker", name}, args...)...)
+	cmd.Stdin = strings.NewReader(string(stdin))
+	var o, e strings.Builder
+	cmd.Stdout = &o
+	cmd.Stderr = &e
+	err = cmd.Run()
+	return []byte(o.String()), []byte(e.String()), err
 }
